@@ -239,7 +239,10 @@ func (g *Gen) Program() []core.Op {
 				g.readBack(&prog, b, nm)
 			}
 		case 6:
-			o := &Op{Kind: "compose", B: b, N: nm, Conds: g.conds(false), HasMeta: true, Meta: g.meta(true)}
+			o := &Op{Kind: "compose", B: b, N: nm, Conds: g.conds(false), HasMeta: !g.R.Chance(1, 6), Meta: g.meta(true)}
+			if !o.HasMeta {
+				o.Meta = Meta{}
+			}
 			ns := g.R.Weighted([]int{3, 30, 30, 20, 10})
 			if g.R.Chance(1, 25) {
 				ns = 32 + g.R.Intn(2)
